@@ -23,8 +23,10 @@ name) stays `file mode content`. In-place `fs::write` through a name of a shared
 through, read (r) to list a directory, write+search on the parent to create or remove an entry, owner bits only, every
 node owned by the caller (so `chmod` is always allowed). ACLs, sticky bits, mount points are out (DESIGN §7 C11).
 
-`removeDirRecursively` is modelled **as repaired for defect D4**: a path that is itself a symlink is unlinked, never
-descended into (`symlink_metadata` first).  `rmRecOld` is the code before the repair, kept for the counterexample.
+`removeDirRecursively` is modelled **as repaired for defects D4 and D8**: a path that is not a directory — a symlink
+(D4), a regular file (D8) — is unlinked as such, never `chmod`-ed, never descended into (`symlink_metadata` first).
+`rmRecOld` is the code before the repair of D4, `rmRecMid` the code between the two repairs (only a symlink is unlinked;
+a regular file is `chmod 0777`-ed before `read_dir` fails); both are kept for the counterexamples.
 -/
 namespace CnbVerif.RmTree
 open CnbVerif
@@ -371,8 +373,28 @@ def rmEntries (root : Bool) (rec : FS → Path → Res) (p : Path) : List (Name 
     | (.error e, fs') => (.error e, fs')
     | (.ok _, fs') => rmEntries root rec p xs fs'
 
-/-- `remove_dir_recursively` **as repaired**: a symlink is unlinked; otherwise `chmod 0777`, empty, `remove_dir` -/
+/-- `remove_dir_recursively` **as repaired** (D4, D8): a path that is not a directory (a symlink, a regular file with one
+name or several) is unlinked as such; a directory is `chmod 0777`-ed, emptied, `remove_dir`-ed -/
 def rmRec (root : Bool) : Nat → FS → Path → Res
+  | 0, fs, _ => (.error .fuel, fs)
+  | f + 1, fs, p =>
+    match lstat root fs p with
+    | .error e => (.error e, fs)
+    | .ok (_, .dir _) =>
+      match chmod root fs p 0o777 with
+      | .error e => (.error e, fs)
+      | .ok fs1 =>
+        match readDir root fs1 p with
+        | .error e => (.error e, fs1)
+        | .ok entries =>
+          match rmEntries root (fun s q => rmRec root f s q) p entries fs1 with
+          | (.error e, fs2) => (.error e, fs2)
+          | (.ok _, fs2) => lift fs2 (rmdir root fs2 p)
+    | .ok _ => lift fs (unlink root fs p)
+
+/-- the code **between** the repairs of D4 and D8: only a symlink is unlinked; anything else — also a regular file — is
+`chmod 0777`-ed (through to its inode) before `read_dir` -/
+def rmRecMid (root : Bool) : Nat → FS → Path → Res
   | 0, fs, _ => (.error .fuel, fs)
   | f + 1, fs, p =>
     match lstat root fs p with
@@ -385,7 +407,7 @@ def rmRec (root : Bool) : Nat → FS → Path → Res
         match readDir root fs1 p with
         | .error e => (.error e, fs1)
         | .ok entries =>
-          match rmEntries root (fun s q => rmRec root f s q) p entries fs1 with
+          match rmEntries root (fun s q => rmRecMid root f s q) p entries fs1 with
           | (.error e, fs2) => (.error e, fs2)
           | (.ok _, fs2) => lift fs2 (rmdir root fs2 p)
 
@@ -432,6 +454,9 @@ def deleteLayer (root : Bool) (fs : FS) (n : Name) : Res :=
 
 def deleteLayerOld (root : Bool) (fs : FS) (n : Name) : Res :=
   deleteLayerWith (fun s p => rmRecOld root (depthFuel fs) s p) root fs n
+
+def deleteLayerMid (root : Bool) (fs : FS) (n : Name) : Res :=
+  deleteLayerWith (fun s p => rmRecMid root (depthFuel fs) s p) root fs n
 
 /-! ## The public operations that delete and recreate a layer -/
 
